@@ -15,10 +15,18 @@
 (*   dirs    - ASM directives (@ lines) keyed by statement address           *)
 (*   igs     - @ignoreua directives: address, comment type, suffix           *)
 (*   nons    - non-entry blocks ('>' lines): header of a block / footer      *)
-(* The state machine builds a document with constructor actions; TLC        *)
-(* -simulate generates documents from it (CtlDoc_sim.cfg), the invariants    *)
-(* below say what "well formed" means (checked by CtlDoc_mc.cfg), i.e. which *)
-(* control files denote a document at all.  Texts are abstract: a comment    *)
+(* The state machine builds a document with constructor actions AddBlock,    *)
+(* AddSubBlock, SetLengths, AddComment, AddRegister, AddInstrComment,         *)
+(* AddMultiLine (M), AddDirective (@), AddIgnore (@ignoreua), AddHeader /     *)
+(* AddFooter ('>'), Finish.  The invariants below say what "well formed"      *)
+(* means, i.e. which control files denote a document at all; they are model   *)
+(* checked with unrestricted interleaving of the actions (CtlDoc_mc.cfg,      *)
+(* CtlDoc_mc2.cfg).  TLC generates the documents the check feeds to the real  *)
+(* tools: random behaviours (-simulate; CtlDoc_sim.cfg: everything,           *)
+(* CtlDoc_sim2.cfg: b/c/i entries with few kinds of statements,               *)
+(* CtlDoc_sim3.cfg: N/I/M comments only) and the complete set of finished     *)
+(* small documents (-dump of the reachable states of CtlDoc_sweep.cfg /       *)
+(* CtlDoc_sweep2.cfg).  Texts are abstract: a comment                         *)
 (* is [t0, nw, nl, sh, dot] = nw fresh word tokens t0+1..t0+nw laid out on   *)
 (* nl lines, decorated according to shape sh (braces in the positions the    *)
 (* skool format allows, blank, dots only), written with dot/colon directives *)
